@@ -82,6 +82,9 @@ func main() {
 	explore.Main("C05", func(r *explore.Run) {
 		D := r.Pick(3, 4)
 		ds := []drivers.Driver{drivers.ReaderLoop(7), drivers.ReadMessageLoop(), drivers.ReadDataLoop("Generic")}
+		// entry points that skip (parts of) a message: they meet the offender while discarding
+		// the open message, a path of its own inside the reader
+		skippers := []drivers.Driver{drivers.ReaderDiscard(0), drivers.ReaderDiscard(1), drivers.ReadDataLoop("Text"), drivers.ReadDataLoop("Binary")}
 		r.Part("E1-invalid-frame-after-valid-prefix", func(t *explore.T) {
 			pre := prefixes(D - 1)
 			lens := []uint64{0, 1, 125, 126, 65536}
@@ -103,7 +106,11 @@ func main() {
 										}
 										data := append(append(append(append([]byte{}, pdata...), refmodel.HdrEncode(h)...), marker[:ln]...), canary(p.side)...)
 										hdrEnd := len(pdata) + len(refmodel.HdrEncode(h))
-										for _, d := range ds {
+										dsHere := ds
+										if p.open {
+											dsHere = append(append([]drivers.Driver{}, ds...), skippers...)
+										}
+										for di, d := range dsHere {
 											if ext && d.Hidden {
 												continue // ReadMessage/ReadData take a plain side state; extended is set through Reader only
 											}
@@ -113,6 +120,9 @@ func main() {
 												// own or together with the header's last byte - the header is complete either
 												// way, so asking for frame k still has to yield the protocol error
 												for _, end := range []string{"continues", "ends-after-header", "ends-with-header"} {
+													if di >= len(ds) && (ch != 0 || end != "continues") {
+														continue
+													}
 													d, ch, ext, end := d, ch, ext, end
 													t.Do(func() string {
 														return fmt.Sprintf("%s ext=%v prefix=[%s] offender={%v} driver=%s chunk=%d stream %s", p.side, ext, streams.Describe(p.frames), h, d.Name, ch, end)
